@@ -538,21 +538,34 @@ pub struct MalformedCase {
     pub source: String,
     pub profile: Profile,
     pub via_stdin: bool,
+    /// Some((byte offset, raw bytes)): bytes spliced into the file that make it invalid UTF-8 (0xFF, a truncated sequence, a lone surrogate half)
+    pub raw_splice: Option<(usize, Vec<u8>)>,
 }
 
 impl MalformedCase {
     pub fn to_json(&self) -> Value {
-        json!({"engine": ENGINE, "kind": "malformed_source", "source": self.source, "profile": self.profile.name(), "via_stdin": self.via_stdin})
+        json!({"engine": ENGINE, "kind": "malformed_source", "source": self.source, "profile": self.profile.name(), "via_stdin": self.via_stdin,
+               "raw_splice": self.raw_splice.as_ref().map(|(at, b)| json!([at, b]))})
     }
     pub fn from_json(v: &Value) -> Option<MalformedCase> {
-        Some(MalformedCase { source: v.get("source")?.as_str()?.to_string(), profile: Profile::from_name(v.get("profile")?.as_str()?)?, via_stdin: v.get("via_stdin")?.as_bool()? })
+        let raw_splice = v.get("raw_splice").and_then(|r| r.as_array()).and_then(|a| {
+            Some((a.get(0)?.as_u64()? as usize, a.get(1)?.as_array()?.iter().filter_map(|b| b.as_u64().map(|b| b as u8)).collect::<Vec<u8>>()))
+        });
+        Some(MalformedCase { source: v.get("source")?.as_str()?.to_string(), profile: Profile::from_name(v.get("profile")?.as_str()?)?, via_stdin: v.get("via_stdin")?.as_bool()?, raw_splice })
     }
 }
 
 /// Some(Some(violation)) / Some(None) = parser rejects and run behaves / None = parser accepts (no claim)
 pub fn judge_malformed(c: &MalformedCase) -> Option<Option<(String, String)>> {
     let dir = scratch_dir();
-    std::fs::write(dir.join("x.fml"), &c.source).unwrap();
+    let mut bytes = c.source.as_bytes().to_vec();
+    if let Some((at, raw)) = &c.raw_splice {
+        let at = (*at).min(bytes.len());
+        let tail = bytes.split_off(at);
+        bytes.extend_from_slice(raw);
+        bytes.extend_from_slice(&tail);
+    }
+    std::fs::write(dir.join("x.fml"), &bytes).unwrap();
     let mut p = if c.via_stdin { Child::new(c.profile, &["parse", "--format", "json"]) } else { Child::new(c.profile, &["parse", "x.fml", "--format", "json"]) };
     if c.via_stdin { p.stdin = In::File("x.fml".into()); }
     p.shim = shim(3, "");
@@ -861,8 +874,15 @@ pub fn run(seed: u64, tier: &str, ev: &mut Evidence) -> Vec<Violation> {
             cfg.tame_arith = true;
             work::gen_source_spec(&mut rng, &cfg).0.source().unwrap_or_default()
         };
-        let (mutated, kind) = mutate_source(&src, &mut rng);
-        let c = MalformedCase { source: mutated, profile: if rng.coin() { Profile::Debug } else { Profile::Release }, via_stdin: rng.below(4) == 0 };
+        let (mutated, kind) = if rng.below(10) == 0 { (src.clone(), "invalid_utf8") } else { mutate_source(&src, &mut rng) };
+        let raw_splice = if kind == "invalid_utf8" {
+            let mut at = rng.usize_below(mutated.len() + 1);
+            while !mutated.is_char_boundary(at) { at -= 1; }
+            Some((at, rng.pick(&[vec![0xFFu8], vec![0xC3], vec![0xE2, 0x82], vec![0xED, 0xA0, 0x80], vec![0xF0, 0x9F], vec![0x80], vec![0xC0, 0xAF]]).clone()))
+        } else {
+            None
+        };
+        let c = MalformedCase { source: mutated, profile: if rng.coin() { Profile::Debug } else { Profile::Release }, via_stdin: rng.below(4) == 0, raw_splice };
         (judge_malformed(&c), c, kind)
     });
     let mut rejected = 0u64;
